@@ -2,6 +2,7 @@ package mon
 
 import (
 	"fmt"
+	"math"
 
 	"verifharness/internal/drive"
 	"verifharness/internal/fw"
@@ -65,7 +66,14 @@ func (p *prog) treeSafeVal(target *model.Node) model.Val {
 	case 3:
 		return model.ScalarFromSpec(spec.GenScalar(r)) // hostile scalars (strings, floats)
 	default:
-		return scalarVal(r)
+		// the history probes serve C01 / C02 / C16 as well, whose statements cover finite floats only
+		for {
+			v := scalarVal(r)
+			if v.K == spec.Float && math.IsInf(v.F, 0) {
+				continue
+			}
+			return v
+		}
 	}
 }
 
@@ -158,7 +166,7 @@ func randomMutation(p *prog, root *model.Node) {
 // historyCases runs the probe / mutate rounds.
 func historyCases(c *fw.Ctx, sub string, nQuick, nThorough int, probe func(p *prog, root *model.Node, round int)) {
 	c.Cases(sub, c.N(nQuick, nThorough), false, func(i int, r *rng.R) {
-		p := &prog{c: c, r: r, h: &model.Heap{}, lazy: i%2 == 1}
+		p := &prog{c: c, r: r, h: &model.Heap{}, lazy: i%2 == 1, ctx: i%3 == 0}
 		guard(c, p.input, func() {
 			tree := genTreeFor(r)
 			if tree.Size() > 400 {
